@@ -131,4 +131,30 @@ def narrows (o : Opts) (quoted : Bool) : Bool :=
   | .unquoted => !quoted
   | .none => false
 
+/-- whenever `to_u64` and `to_f64` both accept a scalar, so does `to_i64` (with the same value):
+`to_f64` accepts a plain integer only up to 2^53 - 1, far below `i64::MAX`.  Hence the arm
+`(_, Ok(x), Ok(_)) => s.serialize_u64(x)` of `serialize_scalar` (json/mod.rs:490) is unreachable:
+its pattern is only tried after `(Ok(x), _, Ok(_))` has failed. -/
+theorem u64_f64_imp_i64 (s : Bytes) (x f : Nat) (hu : Scalar.toU64 s = .ok x) (hf : Scalar.toF64 s = .ok f) :
+    Scalar.toI64 s = .ok (x : Int) := by
+  obtain ⟨c, data, rfl, h⟩ := (toU64_ok_iff s x).mp hu
+  rcases h with ⟨hc, h2⟩ | ⟨rfl, h2⟩
+  · have n45 : (c == 45) = false := (digit_ne c hc).1
+    have hx : x ≤ F64_EXACT_MAX := by
+      simp only [Scalar.toF64, n45, Bool.false_eq_true, if_false, f64Body, f64Head, hc, if_true, h2, f64Tail, f64Int] at hf
+      by_cases hle : x > F64_EXACT_MAX
+      · simp [hle] at hf
+      · omega
+    have h3 : ¬ x > I64_MAX := by simp only [F64_EXACT_MAX, I64_MAX] at *; omega
+    simp [Scalar.toI64, Scalar.toI64T, requireEmpty, toI64Go, hc, h2, h3]
+  · have hx : x ≤ F64_EXACT_MAX := by
+      simp only [Scalar.toF64, f64Body, f64Head, f64Tail, f64Int] at hf
+      simp [isDigit, h2] at hf
+      by_cases hle : x > F64_EXACT_MAX
+      · simp [hle] at hf
+      · omega
+    have h3 : ¬ x > I64_MAX := by simp only [F64_EXACT_MAX, I64_MAX] at *; omega
+    simp [Scalar.toI64, Scalar.toI64T, requireEmpty, toI64Go, isDigit, h2, h3]
+
+
 end Jomini.Json
